@@ -10,7 +10,7 @@ MODE = 'action'
 def cases(tier, seed, prop):
     rnd = random.Random(seed)
     out = []
-    n = 500 if tier == 'quick' else 8000
+    n = 1500 if tier == 'quick' else 8000
     while len(out) < n:
         s, tops = dom_html.gen_doc(rnd, False, rnd.randint(1, 7))
         if len(s) > 200: continue
